@@ -275,9 +275,35 @@ def h_abb(ctx, shape_a, shape_b, s1, s2, caching):
     return (ra[0], rb[0], alone[0], rc[0])
 
 
+def h_open_pair(ctx):
+    """Two OPENs (two sessions of one process), each announcing route refresh under the RFC 2918 code (2) or the pre-standard
+    code (128): what the FIRST decoded to - its capabilities as the API prints them - is the same before and after the SECOND is
+    decoded (`Capability.klass` hands out one class per capability; nothing a later OPEN does may write to it)."""
+    from exabgp.bgp.message.open.capability.capability import Capability
+    from exabgp.bgp.message.open.capability.capabilities import Capabilities
+    from exabgp.bgp.message.open.capability.refresh import RouteRefresh
+    RouteRefresh.ID = Capability.CODE.ROUTE_REFRESH  # the state of a fresh process
+    first = ctx.pick('first-code', [2, 128])
+    second = ctx.pick('second-code', [2, 128])
+
+    def printed(caps):
+        return sorted((int(k), v.json()) for k, v in caps.items())
+    a = Capabilities.unpack(bytes([4, 2, 2, first, 0]))
+    before = printed(a)
+    fresh = before  # decoded first in a fresh process
+    Capabilities.unpack(bytes([4, 2, 2, second, 0]))
+    after = printed(a)
+    ctx.cover('decoded')
+    ctx.check('first-open-unchanged-by-the-second', before == after, sig='C19:open:capability-of-an-earlier-open-altered:%d-then-%d' % (first, second),
+              info={'first': first, 'second': second, 'before': before, 'after': after})
+    RouteRefresh.ID = Capability.CODE.ROUTE_REFRESH
+    return [first, second, fresh, after]
+
+
 def units(tier):
     us = []
     th = tier == 'thorough'
+    us.append(Unit('open/route-refresh-codes', h_open_pair, must_cover=('decoded',), reset=reset_all, weight=1, max_seconds=60))
     for (pa, pb) in ([('comm', 'origin'), ('aspath', 'origin')] + ([('origin', 'origin'), ('comm', 'comm')] if th else [])):
         for (s1, s2) in ([('asn4', 'asn4')] + ([('asn2', 'asn4'), ('asn4', 'asn2')] if th else [])):
             for caching in ((False, True) if th else (True,)):
